@@ -79,7 +79,7 @@ def rust_run(world, cfg, threads, iters, seed, tag):
     os.makedirs(W, exist_ok=True)
     tp = os.path.join(W, f"rust_{tag}.ndjson")
     texts = os.path.join(W, "texts.json")
-    p = C.run_vh(["c18-run", world, tp, "--cfg", cfg, "--threads", threads, "--iters", iters, "--seed", seed, "--limit", 120, "--dump-texts", texts, "--cold-trials", 400 if iters <= 3000 else 3000], timeout=600)
+    p = C.run_vh(["c18-run", world, tp, "--cfg", cfg, "--threads", threads, "--iters", iters, "--seed", seed, "--limit", 120, "--dump-texts", texts, "--cold-trials", 200 if iters <= 3000 else 3000], timeout=600)
     ev = C.read_ndjson(tp)
     g = sorted([e for e in ev if e["ev"] in ("dict_write", "frozen")], key=lambda e: e["gseq"])
     return g, [e for e in ev if e["ev"] not in ("dict_write", "frozen")], texts
